@@ -179,15 +179,40 @@ def axiom_audit(prop_id, names):
     return ok, res, out
 
 
+# Drivers that are also built as native executables (their imports are Mathlib-free).  The same
+# Lean definitions, compiled by Lean's own compiler instead of interpreted: 50-100x faster on long
+# schedules.  Falls back to the interpreter when the executable cannot be built.
+NATIVE_DRIVERS = {'Tunnel': 'tunnel_driver'}
+_native_ready = {}
+
+
+def native_driver(driver):
+    exe = NATIVE_DRIVERS.get(driver)
+    if not exe or os.environ.get('VERIF_NO_NATIVE'):
+        return None
+    if exe not in _native_ready:
+        try:
+            p = subprocess.run(['lake', 'build', exe], cwd=LEAN_DIR, stdout=subprocess.PIPE,
+                               stderr=subprocess.STDOUT, timeout=900, env=lean_env(), text=True)
+            path = os.path.join(LEAN_DIR, '.lake', 'build', 'bin', exe)
+            _native_ready[exe] = path if (p.returncode == 0 and os.path.exists(path)) else None
+        except Exception:  # noqa
+            _native_ready[exe] = None
+    return _native_ready[exe]
+
+
 class LeanBatch:
     """Run a driver file over a list of input lines (batch)."""
 
     def __init__(self, driver):
+        self.name = driver
         self.driver = os.path.join('Drivers', driver + '.lean')
 
     def run(self, lines, timeout=900):
         data = '\n'.join(lines) + '\n'
-        p = subprocess.run(['lake', 'env', 'lean', '--run', self.driver], cwd=LEAN_DIR,
+        exe = native_driver(self.name)
+        cmd = [exe] if exe else ['lake', 'env', 'lean', '--run', self.driver]
+        p = subprocess.run(cmd, cwd=LEAN_DIR,
                            input=data, stdout=subprocess.PIPE, stderr=subprocess.PIPE,
                            timeout=timeout, env=lean_env(), text=True)
         if p.returncode != 0:
